@@ -234,6 +234,9 @@ theorem Clean.suspend {w : World} (h : Clean w) (pc : Pc) : Clean (w.suspend pc)
 
 theorem Clean.handleDisconnect {w : World} (h : Clean w) : Clean w.handleDisconnect := h.of_out rfl
 
+theorem Clean.failStep {w : World} (h : Clean w) (ctx : StepCtx) (st : Outbound.Step) : Clean (w.failStep ctx st) :=
+  h.of_out (failStep_out w ctx st)
+
 theorem Clean.discFail {w : World} (h : Clean w) (ctx : StepCtx) : Clean (w.discFail ctx) :=
   h.of_out (discFail_out w ctx)
 
@@ -413,7 +416,7 @@ theorem pstep_performStep (fuel : Nat) (ih : PMachine fuel) :
   obtain ⟨_, _, i3, i4, i5, _⟩ := ih
   simp only [performStep]
   split
-  · exact (h.discFail _).finishErr _ _
+  · exact (h.failStep _ _).finishErr _ _
   · exact i5 _ _ _ h
   · split
     · exact (h.discFail _).finishErr _ _
